@@ -402,9 +402,15 @@ def sevent (cfg : List (String × Mech)) (cur : Option SCur) : SEv → SOut
     | none => .stop (sfail .unexpected [.failure "malformed-request"])
     | some c => sstep c.name c.mech c.hist p
 
+/-- the payloads stepped by the current negotiator; before any `<auth/>` there is no negotiator
+and nothing was stepped -/
+def curHist : Option SCur → List Bytes
+  | some c => c.hist
+  | none => []
+
 /-- `negotiateServer`: one iteration per peer element -/
 def serverLoop (cfg : List (String × Mech)) (cur : Option SCur) : List SEv → SRes
-  | [] => { err := .eof, used := cur.map (·.name), hist := (cur.map (·.hist)).getD [] }
+  | [] => { err := .eof, used := cur.map (·.name), hist := curHist cur }
   | ev :: rest =>
     match sevent cfg cur ev with
     | .stop r => r
@@ -426,7 +432,7 @@ fails every write: every element is flushed when it is written (`sendSASLError`,
 challenge, and — since the repair — `<success/>`), and a failed flush ends the exchange
 with that error, without the `Authn` bit. -/
 def serverLoopW (cfg : List (String × Mech)) : Option SCur → Nat → List SEv → SRes
-  | cur, _, [] => { err := .eof, used := cur.map (·.name), hist := (cur.map (·.hist)).getD [] }
+  | cur, _, [] => { err := .eof, used := cur.map (·.name), hist := curHist cur }
   | cur, budget, ev :: rest =>
     match sevent cfg cur ev with
     | .stop r =>
@@ -483,9 +489,9 @@ def ctxStop (perms : List PermCall) (used : Option String) (hist : List Bytes) :
 
 def serverLoopC (cfg : List (String × Mech)) (ctx : SCtx) : Option SCur → Nat → List SEv → SRes
   | cur, i, peer =>
-    if ctx.stopsTop i then { err := .ctxErr, used := cur.map (·.name), hist := (cur.map (·.hist)).getD [] } else
+    if ctx.stopsTop i then { err := .ctxErr, used := cur.map (·.name), hist := curHist cur } else
     match peer with
-    | [] => { err := .eof, used := cur.map (·.name), hist := (cur.map (·.hist)).getD [] }
+    | [] => { err := .eof, used := cur.map (·.name), hist := curHist cur }
     | ev :: rest =>
       match sevent cfg cur ev with
       | .stop r => if r.authn && ctx.stopsMid i then ctxStop r.perms r.used r.hist else r
@@ -521,7 +527,7 @@ def SRes.prefixed (r : SRes) (sent : List SSent) (perms : List PermCall) (n : Na
 def SSess.step (cfg : List (String × Mech)) : SSess → SSess
   | .finished r => .finished r
   | .running cur [] sent perms n =>
-    .finished (SRes.prefixed { err := .eof, used := cur.map (·.name), hist := (cur.map (·.hist)).getD [] } sent perms n)
+    .finished (SRes.prefixed { err := .eof, used := cur.map (·.name), hist := curHist cur } sent perms n)
   | .running cur (ev :: rest) sent perms n =>
     match sevent cfg cur ev with
     | .stop r => .finished (r.prefixed sent perms n)
